@@ -255,11 +255,15 @@ def rw_two_handle_workload(ver, maxbuf):
     ops = [{"op": "open"}, {"op": "create_stream", "name": "a"}, {"op": "create_stream", "name": "a"}, wa(3000), {"op": "position"}] + FL
     # mini -> regular: the write-back of the next 2000 bytes migrates /a
     ops += [wa(2000), {"op": "position"}, {"op": "flush"}, {"op": "position"}] + other("b", 3000) + FL
+    # regular -> shorter regular: the tail of /a's chain is released sector by sector; /e takes what a half-done release left on
+    # the free list; then the shrink is retried
+    ops += [{"op": "seek", "whence": "end", "d": 0, "sym": ""}, wa(9000), {"op": "position"}] + FL
+    ops += [{"op": "set_len", "n": 6000}, {"op": "position"}] + other("e", 6000) + [{"op": "set_len", "n": 6000}, {"op": "position"}] + FL
     # regular -> mini: set_len below the cutoff migrates /a back
     ops += [{"op": "set_len", "n": 2500}, {"op": "position"}] + other("c", 6000) + [{"op": "set_len", "n": 2500}, {"op": "position"}] + FL
     # to nothing: the chain is released
     ops += [{"op": "set_len", "n": 0}, {"op": "position"}] + other("d", 2000) + [{"op": "set_len", "n": 0}, {"op": "position"}] + FL + [{"op": "close"}]
-    for nm in ("b", "c", "d", "bar", "a"):
+    for nm in ("b", "e", "c", "d", "bar", "a"):
         ops += [{"op": "open_stream", "name": nm}, {"op": "open_stream", "name": nm}, {"op": "fresh_read"}, {"op": "read_to_end"}, {"op": "close"}]
     return {"ver": ver, "maxbuf": maxbuf, "mode": "rw_faults", "streams": streams, "ops": ops}
 
